@@ -5,7 +5,7 @@ import random
 import sys
 import types
 
-from common import main
+from common import main, budget
 import build
 import frames
 
@@ -111,7 +111,7 @@ def gen(rnd):
 
 def search(item, seed):
     rnd = random.Random(seed * 53 + 11)
-    for _ in range(60):
+    for _ in range(budget(60)):
         case = gen(rnd)
         try:
             why = check(case)
